@@ -47,7 +47,10 @@ type dsEntry struct {
 type sectionT [3][]el
 
 type caseIn struct {
-	Ign      int // 0 no option, 1 IgnoreMissingChildren(false), 2 IgnoreMissingChildren(true)
+	Ign int // 0 no option, 1 IgnoreMissingChildren(false), 2 IgnoreMissingChildren(true)
+	// NFT: the data source's NotFound also answers true for *annotate.NoVisibleChildError
+	// (the interface leaves this open; the outcome must not depend on it)
+	NFT bool
 	DS       []dsEntry
 	Sections [3]*sectionT // create, modify, delete; nil = section absent
 }
@@ -59,8 +62,18 @@ func (e *otherErr) Error() string { return fmt.Sprintf("datasource failure %d", 
 
 type ds struct {
 	*osm.HistoryDatasource
+	nft bool
 	errs  map[[2]int64]error
 	delay map[[2]int64]time.Duration
+}
+
+func (d *ds) NotFound(err error) bool {
+	if d.nft {
+		if _, ok := err.(*annotate.NoVisibleChildError); ok {
+			return true
+		}
+	}
+	return d.HistoryDatasource.NotFound(err)
 }
 
 func (d *ds) wait(k, id int64) {
@@ -150,7 +163,7 @@ type obsT struct {
 
 func run(in *caseIn) obsT {
 	h := &osm.HistoryDatasource{}
-	d := &ds{HistoryDatasource: h, errs: map[[2]int64]error{}, delay: map[[2]int64]time.Duration{}}
+	d := &ds{HistoryDatasource: h, nft: in.NFT, errs: map[[2]int64]error{}, delay: map[[2]int64]time.Duration{}}
 	for _, e := range in.DS {
 		if e.DelayMS > 0 {
 			d.delay[[2]int64{int64(e.Kind), e.ID}] = time.Duration(e.DelayMS) * time.Millisecond
@@ -283,7 +296,7 @@ func descEls(l []el) []interface{} {
 
 func mkCase(in *caseIn, mut func(*obsT)) *wire.Case {
 	c := &wire.Case{Class: "change"}
-	c.Int(1).Bool(in.Ign == 2)
+	c.Int(1).Bool(in.Ign == 2).Bool(in.NFT)
 	c.Len(len(in.DS))
 	var dds []interface{}
 	for _, e := range in.DS {
@@ -341,7 +354,7 @@ func mkCase(in *caseIn, mut func(*obsT)) *wire.Case {
 			"error_elem_kind": o.EK, "error_id_or_code": o.EID, "error": o.ErrText}
 	}
 	c.Desc = map[string]interface{}{"op": "annotate.Change", "option": []string{"none", "IgnoreMissingChildren(false)", "IgnoreMissingChildren(true)"}[in.Ign],
-		"datasource": dds, "change": dsec, "observed": obs}
+		"datasource": dds, "notfound_accepts_typed_error": in.NFT, "change": dsec, "observed": obs}
 	return c
 }
 
@@ -417,7 +430,7 @@ func (g *gen) history(kind int, id int64, v int) (e dsEntry, class string) {
 }
 
 func (g *gen) genCase(maxPer int) *caseIn {
-	in := &caseIn{Ign: g.rng.Intn(3)}
+	in := &caseIn{Ign: g.rng.Intn(3), NFT: g.rng.Intn(3) == 0}
 	used := map[[2]int64]bool{}
 	for si := 0; si < 3; si++ {
 		if g.rng.Intn(8) == 0 {
@@ -715,7 +728,7 @@ func main() {
 	for i := 0; i < nSingle; i++ {
 		k := rng.Intn(3)
 		v := 1 + rng.Intn(8)
-		in := &caseIn{Ign: rng.Intn(3)}
+		in := &caseIn{Ign: rng.Intn(3), NFT: rng.Intn(3) == 0}
 		s := &sectionT{}
 		s[k] = []el{{k, 77, v, rng.Intn(2) == 0, g.nextPay()}}
 		in.Sections[1+rng.Intn(2)] = s
